@@ -24,6 +24,18 @@ UNIT_US = {'us': 1, 'ms': 1000, 's': 10**6, 'm': 60 * 10**6, 'h': 3600 * 10**6, 
 UNITS = ['us', 'us', 'us', 'ms', 's', 'ns', 'ns', 'm', 'h', 'D']
 
 
+TZ_MINUTES = [120, -330, 0, 345, -600]     # UTC offsets of the caller's timezone-aware datetimes, in minutes
+
+
+def _dt(us, tzmin=None):
+    """The datetime for `us` microseconds after 1970-01-01 UTC: naive (taken as UTC by the writer), or aware with the
+    given UTC offset - the same instant either way."""
+    base = datetime.datetime(1970, 1, 1) + datetime.timedelta(microseconds=us)
+    if tzmin is None:
+        return base
+    return base.replace(tzinfo=datetime.timezone.utc).astimezone(datetime.timezone(datetime.timedelta(minutes=tzmin)))
+
+
 def to_unit(us, unit):
     return us * 1000 if unit == 'ns' else us // UNIT_US[unit]
 
@@ -75,6 +87,9 @@ def gen_prop_value(rng):
     if k < 0.56:
         return ['str', gen.gen_text(rng)]
     if k < 0.64:
+        if rng.random() < 0.25:
+            # a timezone-aware datetime (datetime.now().astimezone(), ZoneInfo): the instant is what is stored
+            return ['datetime', gen_ts_us(rng), rng.choice(TZ_MINUTES)]
         return ['datetime', gen_ts_us(rng)]
     if k < 0.72:
         unit = rng.choice(UNITS)
@@ -197,6 +212,8 @@ def gen_channel_data(rng, kind, allow_empty=True):
     elif form == 'dt-list':
         n = max(1, n)
         d['us'] = [rng.randint(-2 * 10**15, 4 * 10**15) for _ in range(n)]
+        if rng.random() < 0.25:
+            d['tz'] = rng.choice(TZ_MINUTES)
     elif form == 'tsarray':
         d['hex'] = gen.gen_values(rng, 'ts', n, 2**36).hex()
     if form in ('list-int', 'list-float', 'strs-list', 'dt-list'):
@@ -322,7 +339,10 @@ def gen_program(rng, max_calls=8):
             # the file is always opened for appending, also the first time, when it does not exist yet (a logger's habit)
             'first_mode': 'a' if rng.random() < 0.1 else 'w',
             # with-block, explicit open() and close(), or (writers on the caller's streams) neither
-            'lifecycle': rng.choice(['with'] * 7 + ['open-close', 'open-close', 'bare'])}
+            'lifecycle': rng.choice(['with'] * 7 + ['open-close', 'open-close', 'bare']),
+            # how the objects of a segment are handed over: a list, a tuple, or a one-shot iterable
+            # (writer.write_segment(ChannelObject(g, n, a) for n, a in data.items()))
+            'objects_as': rng.choice(['list'] * 7 + ['tuple', 'generator', 'generator'])}
 
 
 # ------------------------------------------------------------------------------ materialisation
@@ -337,7 +357,7 @@ def make_value(nptdms, pv):
     if k == 'npbool':
         return np.bool_(pv[1])
     if k == 'datetime':
-        return datetime.datetime(1970, 1, 1) + datetime.timedelta(microseconds=pv[1])
+        return _dt(pv[1], pv[2] if len(pv) > 2 else None)
     if k == 'datetime64':
         return np.datetime64(pv[1], pv[2])
     if k == 'np':
@@ -388,7 +408,7 @@ def _make_data(nptdms, d):
     if form == 'dt64':
         return np.array(d['ints'], dtype='datetime64[%s]' % d['unit'])
     if form == 'dt-list':
-        return seq([datetime.datetime(1970, 1, 1) + datetime.timedelta(microseconds=u) for u in d['us']])
+        return seq([_dt(u, d.get('tz')) for u in d['us']])
     if form == 'tsarray':
         arr = np.frombuffer(bytes.fromhex(d['hex']), dtype=[('second_fractions', '<u8'), ('seconds', '<i8')]).copy()
         return nptdms.timestamp.TimestampArray(arr)
